@@ -8,6 +8,14 @@ from .terms import T, const, sym, call, mk, is_const, cval
 _ids = itertools.count(1)
 
 
+class ColumnOrderUnknown(Exception):
+    """a column is addressed by position in a table whose column order is whatever the input file has"""
+
+    def __init__(self, msg, node=None):
+        super().__init__(msg)
+        self.node = node
+
+
 class NotConst(Exception):
     pass
 
